@@ -50,6 +50,12 @@ type (
 		Val  CExpr
 		Body CExpr
 	}
+	// CApply: body of a spec function with its parameters bound simultaneously to the arguments
+	CApply struct {
+		Params []string
+		Args   []CExpr
+		Body   CExpr
+	}
 )
 
 type CParam struct {
@@ -84,6 +90,10 @@ type (
 	SLet struct { // ghost local: let x = e
 		Name string
 		E    CExpr
+	}
+	SForall struct { // forall-introduction over lemma applications
+		Vars []CParam
+		Body []CStmt
 	}
 )
 
@@ -699,6 +709,21 @@ func (p *parser) stmt() CStmt {
 			}
 		}
 		return &SIf{c, th, el}
+	}
+	if p.acceptId("forall") {
+		var vars []CParam
+		for {
+			n := p.ident()
+			ty := "int"
+			if !p.isOp("{") && !p.isOp(",") {
+				ty = p.typeText()
+			}
+			vars = append(vars, CParam{n, ty})
+			if !p.accept(",") {
+				break
+			}
+		}
+		return &SForall{vars, p.block()}
 	}
 	if p.acceptId("assert") {
 		st := p.p
